@@ -309,6 +309,7 @@ def run(ctx):
     c015(ctx)
     c017(ctx)
     c018(ctx)
+    c019(ctx)
 
 
 # ---------------------------------------------------------------------- C01.5 seq cell typestate
@@ -494,7 +495,11 @@ def c015(ctx):
             if (b, pend) in seen:
                 continue
             seen.add((b, pend))
-            cur = set(pend)
+            # (frame local, 'owed'): the cell was already advanced for this frame, which is still to be delivered
+            owed = {l for (l, m) in pend if m == 'owed'}
+            cur = {(l, m) for (l, m) in pend if m != 'owed'}
+            if b in moves:
+                owed -= moves[b]
             if b in cons:
                 # frames of earlier constructions that can no longer be delivered are dead
                 reach = f.reach(b)
@@ -509,15 +514,19 @@ def c015(ctx):
                 live = {(l, m) for (l, m) in cur if m or (move_blocks_of.get(l, set()) & f.reach(b))}
                 if not live:
                     errors.setdefault(('gap', b), 'the seq cell is advanced although no frame was built from it (gap)')
+                # advanced before delivery: the frame is owed — it must still be delivered on every path from here
+                owed |= {l for (l, m) in live if not m}
                 cur = set()
             t = f.blocks[b]['t']
             if t['k'] == 'ret':
                 left = {l for (l, m) in cur if m}
                 if left and not terminal_ok:
                     errors.setdefault(('noadv', b), 'a frame built from the seq cell is delivered but the cell is not advanced before return (the next frame repeats the seq)')
+                if owed and not terminal_ok:
+                    errors.setdefault(('dropped', b), 'the seq cell was advanced for a frame that is then DROPPED on this path (never delivered): its seq is used up, the stream has a hole')
                 continue
             for s2 in f.succs(b):
-                work.append((s2, frozenset(cur)))
+                work.append((s2, frozenset(cur | {(l, 'owed') for l in owed})))
         ctx.ob('C01.5', f, 'seq-cell-typestate', not errors,
                '%d frame construction(s), %d advance site(s), %d (block, pending) states explored: %s' % (
                    sum(len(v) for v in cons.values()), len(advs), len(seen), 'use / advance alternate on every path' if not errors else '; '.join(sorted(set(errors.values())))),
@@ -641,3 +650,27 @@ def c018(ctx):
         ctx.ob('C01.8', f, 'raced:%s' % X.replace('ripd::', ''), not bad,
                '%s %s: %s' % (how, X, 'reaches no seq-critical coroutine (%d functions)' % len(par) if not bad else
                               'can be DROPPED while parked inside %s (frame stamped, seq consumed, not yet delivered): %s' % (bad[0], ' -> '.join(x.replace('ripd::', '') for x in P.chain(par, bad[0])))), line=s.line)
+
+
+# ---------------------------------------------------------------------- C01.9 who may write the seq table
+def c019(ctx):
+    P = ctx.prog
+    ctx.rule('C01.9', 'the seq table only moves with a frame: every function that takes the next_seq guard and mutates the table (insert / extend / remove / clear / entry / retain / get_mut) also appends a frame to the log inside that guard. A function that writes the table from anything else — a log scan taken before the lock, a reset — can roll a counter back under a concurrent append, and the next frame repeats a seq.')
+    MUT = r'HashMap::<K, V, S, A>::(insert|remove|clear|entry|retain|drain|get_mut|remove_entry)$|Extend<.*>>::extend$|HashMap::<K, V, S, A>::extend$'
+    n = 0
+    lsites = logical_append_sites(P, [s for s in P.callers(APPEND) if s.fn.path.startswith(STORE)])
+    for p, f in sorted(P.fns.items()):
+        if f.crate != 'ripd':
+            continue
+        gr = f.guard_ranges(SEQ_GUARD)
+        if not gr:
+            continue
+        muts = [s for s in f.sites() if re.search(MUT, s.callee) and any(derives_from_local(f, s.args[0], g) for g in gr if s.args and op_place(s.args[0]))]
+        if not muts:
+            continue
+        n += 1
+        apps = [a for a in lsites if a.fn.path == f.path and f.held_at(a.bb, SEQ_GUARD)]
+        ctx.ob('C01.9', f, 'table-write-with-frame', bool(apps),
+               'the seq table is mutated at %d site(s) (%s); %s' % (len(muts), ', '.join(sorted({m.name for m in muts})), '%d log append(s) under the same guard' % len(apps) if apps else
+                                                                 'NO frame is appended under the guard: the table is (re)written from something other than a frame just logged'), line=muts[0].line)
+    ctx.floor('C01.9', 'functions that mutate the seq table under its guard', n, 12)
